@@ -371,7 +371,7 @@ func runC09(c *Ctx) {
 				key := kg.Key(fmt.Sprintf("guarded-by %s.%s.%s %s in %s", g.pkg, g.typ, g.field, mode, core.FuncName(fn)))
 				key = strings.TrimSuffix(key, "#0")
 				r.Add(core.Obligation{Rule: "guarded-by", Key: key, Func: core.FuncName(fn), Pos: c.P.Pos(core.PosOf(ac.instr)), Status: st,
-					Basis: fmt.Sprintf("%s of %s.%s under %s%s", ac.how, g.typ, g.field, must, exempt),
+					Basis:  fmt.Sprintf("%s of %s.%s under %s%s", ac.how, g.typ, g.field, must, exempt),
 					Detail: fmt.Sprintf("%s (%s) of %s.%s with locks certainly held = %s (entry lockset %s; roots: %s); needs %v%s", mode, ac.how, g.typ, g.field, must, an.Entry[fn], rootWhy(an, fn), need, modeNote(ac.write))})
 			}
 		}
